@@ -69,6 +69,12 @@ type rtGenOpts struct {
 	pushbackPc int // % of failing scripts that carry a pushback trailer
 	sleepPct   int // % of failing scripts that sleep first (client runs ahead)
 	headerOp   bool
+	// noMsgFail: failing scripts never send a message. The world's wire ledger
+	// attributes a response stream without x-sim-att header (scripts without
+	// sends) to invocation 0, which is only right if invocation 0 sent nothing
+	// or no later invocation exists; under connection faults a message of
+	// invocation 0 can get lost and the RPC be retried.
+	noMsgFail bool
 }
 
 // rtGenRPC builds one logical RPC: a client script and one handler script per
@@ -171,7 +177,11 @@ func rtGenRPC(r *core.Rand, id uint32, p *rtPolicy, o rtGenOpts, nFail int) RPC 
 			}
 		}
 		if r.Intn(100) < o.commitPct {
-			switch r.Intn(3) {
+			v := r.Intn(3)
+			if o.noMsgFail {
+				v = r.Intn(2)
+			}
+			switch v {
 			case 0:
 				s = append(s, Op{Op: "send_header", MD: []KV{{K: "urt", V: "h"}}})
 			case 1:
@@ -287,7 +297,8 @@ func genC18(seed uint64, tier string) *Scenario {
 		}
 		return core.Pick(r, 0, 1, 20, 49, 51, 300, 499, 2000, 6000)
 	}
-	o := rtGenOpts{sizes: bigSizes, maxMsgs: 4, commitPct: 20, pushbackPc: 15, sleepPct: 35, headerOp: true}
+	class := r.Intn(100)
+	o := rtGenOpts{sizes: bigSizes, maxMsgs: 4, commitPct: 20, pushbackPc: 15, sleepPct: 35, headerOp: true, noMsgFail: class >= 60}
 	n := r.Range(1, 5)
 	if tier == "thorough" {
 		n = r.Range(1, 9)
@@ -301,7 +312,6 @@ func genC18(seed uint64, tier string) *Scenario {
 		rpc.StartNs = int64(r.Intn(3)) * int64(r.Intn(3000000))
 		s.RPCs = append(s.RPCs, rpc)
 	}
-	class := r.Intn(100)
 	switch {
 	case class < 50: // clean
 	case class < 60: // cancellation and deadlines racing with the backoff
